@@ -125,6 +125,14 @@ func effCmp(a an.PathAtom) (x, y *an.Expr, op token.Token, ok bool) {
 			}
 		}
 	}
+	// len(s) == 0 for a string s says s == ""
+	if x.Op == an.OpLen && len(x.Args) == 1 && x.Args[0].Typ != nil && (op == token.EQL || op == token.NEQ) {
+		if b, isBasic := x.Args[0].Typ.Underlying().(*types.Basic); isBasic && b.Info()&types.IsString != 0 {
+			if k, isC := y.ConstInt(); isC && k == 0 {
+				x, y = x.Args[0], &an.Expr{Op: an.OpConst, Name: `""`, Cval: constant.MakeString(""), Typ: x.Args[0].Typ}
+			}
+		}
+	}
 	return x, y, op, true
 }
 
